@@ -9,7 +9,7 @@ RULE = ("EXHAUSTIVE over: 8 bin types x threshold lists of length 1-3 in increas
         "order relation a value can have to the thresholds (below, equal, between, equal, above) plus NaN and +-inf, "
         "presented as Python float, NumPy scalar, length-1, 1-d and 2-d arrays, pushed through each entry point "
         "(Interval.within, util.get_intervals, util.apply_threshold, util.apply_threshold_prob, contingency counting "
-        "via metric a/b/c/d/n, `-m a|b|c|d|freq` and `-hist` through the CLI). The documented table is written once as "
+        "via metric a/b/c/d/n, `-m a|b|c|d|freq|quantilecoverage` and `-hist` through the CLI). The documented table is written once as "
         "data (vmon.attach.BIN_TABLE). Plus record-mode contracts on within/apply_threshold/get_intervals during an "
         "ambient CLI workload. signature = (bin type, threshold-order class, value-relation class, entry point); "
         "non-trivial = the value equals a threshold, is missing or infinite.")
@@ -28,6 +28,7 @@ def plan(tier, seed):
     shards = [{"part": "api", "bins": [b], "seed": seed, "tier": tier} for b in BINS]
     ncli = 2 if tier == "quick" else 6
     shards += [{"part": "cli", "seed": seed, "tier": tier, "k": i} for i in range(ncli)]
+    shards += [{"part": "qevents", "seed": seed, "tier": tier, "k": i} for i in range(ncli)]
     shards += [{"part": "ambient", "seed": seed, "tier": tier, "k": i, "n": 150 if tier == "quick" else 1200}
                for i in range(4)]
     return shards
@@ -303,7 +304,48 @@ def run_cli_part(desc, ctx):
             ctx.violation("cli-failed|hist", str(o.brief()), {"bin": b})
 
 
+def run_quantile_events(desc, ctx):
+    """quantilecoverage applies the -b open/closed ends to the quantile forecasts itself: observations exactly equal
+    to a quantile value decide."""
+    rng = random.Random("C07-q-%s-%s" % (desc["seed"], desc["k"]))
+    d = os.path.join(ctx.workdir, "qcov")
+    os.makedirs(d, exist_ok=True)
+    inp = gen.make_input(rng, "qc.txt", "text", gen.pick_times(rng, 4), [0, 12, 24], gen.LOC_POOL[:3], quantiles=[0.25, 0.75], miss=0.0,
+                         vrange=(0, 10), integerish=True)
+    for c in inp["cells"].values():
+        lo = float(rng.randint(0, 5))
+        hi = lo + rng.randint(0, 4)
+        c["q"] = [lo, hi]
+        c["obs"] = rng.choice([lo, hi, lo - 1, hi + 1, (lo + hi) / 2.0, None])
+    path = gen.write_input(inp, d, None)
+    rows_ = [(c["obs"], c["q"][0], c["q"][1]) for c in inp["cells"].values() if c["obs"] is not None]
+    n = float(len(rows_))
+    for b in BINS:
+        ul, lc, uu, uc = attach.BIN_TABLE[b]
+        o = runner.run_cli([path, "-m", "quantilecoverage", "-q", "0.25,0.75", "-b", b, "-x", "threshold", "-type", "csv"])
+        if o.status != "ok":
+            ctx.violation("cli-failed|quantilecoverage", str(o.brief()), {"bin": b})
+            continue
+        h, rows = runner.parse_csv(o.stdout)
+        got = [r[-1] for r in rows]
+        if ul and uu:
+            want = [sum(1 for ob, lo, hi in rows_ if (lo < ob or (lc and lo == ob)) and (ob < hi or (uc and ob == hi))) / n]
+        elif uu:      # below / below=: the observation is below the quantile forecast
+            want = [sum(1 for ob, lo, hi in rows_ if ob < q or (uc and ob == q)) / n for q in (None,)] if False else \
+                [sum(1 for ob, lo, hi in rows_ if ob < (lo, hi)[j] or (uc and ob == (lo, hi)[j])) / n for j in (0, 1)]
+        else:         # above / above=
+            want = [sum(1 for ob, lo, hi in rows_ if ob > (lo, hi)[j] or (lc and ob == (lo, hi)[j])) / n for j in (0, 1)]
+        ctx.count("cli_rows_checked", len(rows))
+        ctx.case("%s|inc2|equal|cli-quantilecoverage" % b, True, {"argv": ["qc.txt", "-m", "quantilecoverage", "-q", "0.25,0.75", "-b", b]})
+        exp = ["%g" % w for w in want]
+        if got != exp:
+            ctx.violation("cli-quantile-event|%s" % b, "-m quantilecoverage -q 0.25,0.75 -b %s: csv %s, documented event gives %s" % (b, got, exp),
+                          {"bin": b})
+
+
 def run_shard(desc, ctx):
+    if desc["part"] == "qevents":
+        return run_quantile_events(desc, ctx)
     if desc["part"] == "api":
         run_api(desc, ctx)
     elif desc["part"] == "cli":
